@@ -35,7 +35,7 @@ def _worker(args):
     t0 = time.time()
     try:
         from py4hw.base import Wire
-        Wire.prepared = []
+        core.reset_prepared()
         with core.quiet():
             res = mod.run_shard(desc)
         res.setdefault('violations', [])
